@@ -602,6 +602,9 @@ func perturb(v interface{}) interface{} {
 	case bool:
 		return !x
 	case stdjson.Number:
+		if chance(0.15) {
+			return string(x) // the same text as a string
+		}
 		if n, ok := nearNum[string(x)]; ok && chance(0.6) {
 			return stdjson.Number(n)
 		}
@@ -1246,7 +1249,14 @@ func validDeep(b []byte) {
 	if cerr != nil {
 		cout = nil
 	}
-	emit("valid", kv{"in", hx(b)}, kv{"status", st}, kv{"valid", b2s(v)}, kv{"compactdeep", b2s(cerr == nil) + b2s(bytes.Equal(cout, b))}, kv{"unmarshal", b2s(uerr == nil)})
+	fields := []kv{{"in", hx(b)}, {"status", st}, {"valid", b2s(v)}, {"compactdeep", b2s(cerr == nil) + b2s(bytes.Equal(cout, b))}, {"unmarshal", b2s(uerr == nil)}}
+	if len(b) > 0 && b[0] == '{' {
+		// the entry points that take an object, with {} as the other argument
+		empty := []byte("{}")
+		fields = append(fields, kv{"apideep", "CreateMergePatch/2:" + runCreate(empty, b).status + ";CreateMergePatch/1:" + runCreate(b, empty).status +
+			";MergePatch/2:" + runMerge(false, empty, b).status + ";MergePatch/1:" + runMerge(false, b, empty).status})
+	}
+	emit("valid", fields...)
 }
 
 func validStream(n int, exhaustLen int) {
@@ -1665,7 +1675,10 @@ func cliStream(n int, bin string) {
 				content := joinOps(ops)
 				if chance(0.25) {
 					// data after the patch array: white space is fine, anything else is not a patch document
-					content = append(content, pick(" ", "\n", "]", "]", "}", "}", " ]", "\n}", "\n]\n", "[]", " x", ",", "null")...)
+					content = append(content, pick(" ", "\n", "]", "]", "}", "}", " ]", "\n}", "\n]\n", "[]", " x", ",", "null", "\f", "\v", "\xc2\xa0", "\xe3\x80\x80", "\xc2\x85", "\xe2\x80\xa8")...)
+				} else if chance(0.06) {
+					// white space of Unicode that is not white space of JSON, in front
+					content = append([]byte(pick("\f", "\v", "\xc2\xa0", "\xe3\x80\x80", "\xef\xbb\xbf")), content...)
 				}
 				os.WriteFile(path, content, 0o644)
 				files = append(files, "file:"+hx(content))
@@ -1857,6 +1870,17 @@ func mkPool() *pool {
 			p.patches = append(p.patches, pt)
 			p.ptexts = append(p.ptexts, t)
 			p.docs = append(p.docs, []byte(pick(`{"a":{"x":1},"b":2}`, `[{"k00":1},2]`, `{"big":null}`, `{}`)))
+		}
+	}
+	if chance(0.3) {
+		// the document null (decoded into a nil map next to whatever key list the pooled decoder holds)
+		// and patches that look at the root
+		p.docs = append(p.docs, []byte(pick("null", " null ", "null\n")))
+		t := []byte(pick(`[{"op":"test","path":"","value":{}}]`, `[{"op":"test","path":"","value":{}},{"op":"replace","path":"","value":{"ok":true}}]`,
+			`[{"op":"add","path":"","value":null},{"op":"test","path":"","value":{}}]`, `[{"op":"test","path":"","value":null}]`))
+		if pt, err := jsonpatch.DecodePatch(t); err == nil {
+			p.patches = append(p.patches, pt)
+			p.ptexts = append(p.ptexts, t)
 		}
 	}
 	if len(p.patches) == 0 {
